@@ -86,6 +86,42 @@ Definition implements (c : ctype) (p : ptype) : bool :=
 Fixpoint memZ (i : Z) (l : list Z) : bool :=
   match l with [] => false | x :: r => Z.eqb i x || memZ i r end.
 
+(* ---- the executor's invocation graph: for each invocation it has added, the
+        set addInvocation recorded in invocationDeps (the invocations its *Result
+        arguments come from) ---- *)
+Notation graph := (list (Z * list Z)) (only parsing).
+Definition deps_of (g : graph) (i : Z) : list Z :=
+  match find (fun e => Z.eqb (fst e) i) g with Some e => snd e | None => [] end.
+
+(* bigmachineExecutor.compile, first loop: todo := [invIndex]; pop i, record it,
+   push invocationDeps[i].  (No visited set: an invocation reachable twice is
+   listed twice.)  None = out of fuel. *)
+Fixpoint walk (fuel : nat) (g : graph) (todo : list Z) : option (list Z) :=
+  match todo with
+  | [] => Some []
+  | i :: rest =>
+      match fuel with
+      | O => None
+      | S f => option_map (cons i) (walk f g (rest ++ deps_of g i))
+      end
+  end.
+
+(* second loop, for i := len(invocations)-1 .. 0: Worker.Compile of each, at most
+   once per machine (m.Compiles); the worker fails with "invalid invocation
+   reference" when a reference is to an invocation it has not compiled.
+   [order] is already reversed; the result is the set the worker has compiled. *)
+Fixpoint compile_all (g : graph) (order : list Z) (compiled : list Z) : option (list Z) :=
+  match order with
+  | [] => Some compiled
+  | i :: r =>
+      if memZ i compiled then compile_all g r compiled
+      else if forallb (fun d => memZ d compiled) (deps_of g i) then compile_all g r (i :: compiled)
+      else None
+  end.
+
+Definition graph_fuel (g : graph) : nat :=
+  S (List.length g) * S (List.length g) * S (fold_right (fun e n => List.length (snd e) + n)%nat 0%nat g).
+
 Section Transport.
 (* contents of values as gob sees them, and their encoded form *)
 Variables V B : Type.
@@ -139,6 +175,14 @@ Fixpoint subst_args (known : list Z) (args : list arg) : sres :=
       | None => SPanic
       | Some a' => match subst_args known rest with SOk r => SOk (a' :: r) | SPanic => SPanic end
       end
+  end.
+
+(* ... and records each of them in invocationDeps[inv.Index] *)
+Fixpoint record_deps (args : list arg) : list Z :=
+  match args with
+  | [] => []
+  | AResult i :: rest => i :: record_deps rest
+  | _ :: rest => record_deps rest
   end.
 
 (* ---- GobEncode ---- *)
@@ -282,6 +326,21 @@ Definition transport (known compiled : list Z) (ps : list ptype) (args : list ar
           end
       end
   end.
+
+(* ---- the same towards a FRESH worker (one that has compiled nothing): compile
+        first sends the invocations behind the Result arguments, transitively,
+        dependencies first; [g] is the executor's graph of earlier invocations ---- *)
+Definition fresh_compiled (g : list (Z * list Z)) (args : list arg) : list Z :=
+  match walk (graph_fuel g) g (record_deps args) with
+  | None => []
+  | Some order =>
+      match compile_all g (rev order) [] with
+      | Some compiled => compiled
+      | None => []
+      end
+  end.
+Definition fresh_transport (g : list (Z * list Z)) (ps : list ptype) (args : list arg) : outcome :=
+  transport (map fst g) (fresh_compiled g args) ps args.
 
 (* ---- what the property asks of one well-typed argument ---- *)
 (* a typed nil pointer that the transport could represent: the parameter type
